@@ -85,11 +85,11 @@ def check(case):
 
 
 def _main(tier):
-    return _fmt.script_cases(O.layout_options(), sanitize=HAZ in excluded_hazards(ID))
+    return _fmt.script_cases(O.layout_options(), sanitize=HAZ in excluded_hazards(ID), procedural=True)
 
 
 def _hazard(tier):
-    return _fmt.script_cases(O.layout_options(), sanitize=False, comments=25)
+    return _fmt.script_cases(O.layout_options(), sanitize=False, comments=25, procedural=True)
 
 
 LEGS = [Leg('main', check=check, strategy=_main, examples={'quick': 6000, 'thorough': 150000}),
